@@ -29,6 +29,8 @@ structure HB where
   hl : HL
   connected : Bool
   lastArm : Nat            -- ghost: when the current deadline was armed
+  resetAt : Nat            -- ghost: when the reset in progress began
+  expiries : List Nat      -- ghost: every deadline that was ever armed, and every expiry instant
   trace : List HEv
 deriving Repr
 
@@ -36,7 +38,7 @@ def HB.emit (h : HB) (e : HEv) : HB := { h with trace := h.trace ++ [e] }
 
 def init (interval timeout : Nat) : HB :=
   { now := 0, interval := interval, timeout := timeout, flag := false, tl := .idle, hl := .idle,
-    connected := false, lastArm := 0, trace := [] }
+    connected := false, lastArm := 0, resetAt := 0, expiries := [], trace := [] }
 
 inductive Label
   | advance (t : Nat)
@@ -51,7 +53,8 @@ deriving DecidableEq, Repr
 
 /-- (re-)entering `async with asyncio.timeout(timeout)`; an event that is already set is consumed at once -/
 def enterTimeout (h : HB) : HB :=
-  { h with tl := .waiting (h.now + h.timeout), flag := false, lastArm := h.now }
+  { h with tl := .waiting (h.now + h.timeout), flag := false, lastArm := h.now,
+           expiries := h.expiries ++ [h.now + h.timeout] }
 
 def step (h : HB) : Label → Option HB
   | .advance t =>
@@ -79,13 +82,17 @@ def step (h : HB) : Label → Option HB
   | .tlWake =>
     match h.tl with
     | .waiting _ =>
-      if h.flag then some { h with tl := .waiting (h.now + h.timeout), flag := false, lastArm := h.now } else none
+      if h.flag then
+        some { h with tl := .waiting (h.now + h.timeout), flag := false, lastArm := h.now
+                      expiries := h.expiries ++ [h.now + h.timeout] }
+      else none
     | _ => none
   | .tlFire =>
     match h.tl with
     | .waiting d =>
       if d ≤ h.now then
-        if h.connected then some ({ h with tl := .resetting }.emit (.reset h.now))
+        let h := { h with expiries := h.expiries ++ [h.now] }
+        if h.connected then some ({ h with tl := .resetting, resetAt := h.now }.emit (.reset h.now))
         else some (enterTimeout h)
       else none
     | _ => none
@@ -124,36 +131,41 @@ def HIn.time : HIn → Nat
 def apply! (h : HB) (l : Label) : HB := (step h l).getD h
 
 /-- perform internal actions due strictly before (or, for `incl`, at) time `t` -/
-def settle (fuel : Nat) (h : HB) (t : Nat) (incl : Bool) : HB :=
+def settle (rt : Nat) (fuel : Nat) (h : HB) (t : Nat) (incl : Bool) : HB :=
   match fuel with
   | 0 => h
   | fuel+1 =>
     let h := if h.flag then apply! h .tlWake else h
-    let dueTl : Option Nat := match h.tl with | .waiting d => some d | _ => none
+    let dueTl : Option Nat := match h.tl with | .waiting d => some d | .resetting => some (h.resetAt + rt) | .idle => none
+    let fireOrDone (h : HB) : HB := match h.tl with | .resetting => apply! h .tlResetDone | _ => apply! h .tlFire
     let dueHl : Option Nat := match h.hl with | .sleeping u => some u | .idle => none
     let lim (d : Nat) : Bool := if incl then decide (d ≤ t) else decide (d < t)
     match dueTl, dueHl with
     | some d, some u =>
       if d ≤ u then
-        if lim d then settle fuel (apply! (apply! h (.advance d)) .tlFire) t incl else h
+        if lim d then settle rt fuel (fireOrDone (apply! h (.advance d))) t incl else h
       else
-        if lim u then settle fuel (apply! (apply! h (.advance u)) .hlBeat) t incl else h
-    | some d, none => if lim d then settle fuel (apply! (apply! h (.advance d)) .tlFire) t incl else h
-    | none, some u => if lim u then settle fuel (apply! (apply! h (.advance u)) .hlBeat) t incl else h
+        if lim u then settle rt fuel (apply! (apply! h (.advance u)) .hlBeat) t incl else h
+    | some d, none => if lim d then settle rt fuel (fireOrDone (apply! h (.advance d))) t incl else h
+    | none, some u => if lim u then settle rt fuel (apply! (apply! h (.advance u)) .hlBeat) t incl else h
     | none, none => h
 
-def feed (h : HB) (i : HIn) : HB :=
-  let h := settle 100000 h i.time false
+def feed (rt : Nat) (h : HB) (i : HIn) : HB :=
+  let h := settle rt 100000 h i.time false
   let h := apply! h (.advance i.time)
   match i with
   | .conn up _ => apply! h (.conn up)
-  | .start _ => settle 8 (apply! h .start) i.time true      -- both tasks take their first step at once
+  | .start _ => settle rt 8 (apply! h .start) i.time true      -- both tasks take their first step at once
   | .stop _ => apply! h .stop
   | .resp _ => apply! (apply! h .response) .tlWake
   | .resetDone _ => apply! h .tlResetDone
-  | .finish _ => settle 100000 h i.time true
+  | .finish _ => settle rt 100000 h i.time true
 
-def simulate (interval timeout : Nat) (ins : List HIn) : List HEv :=
-  (ins.foldl feed (init interval timeout)).trace
+/-- `rt` = how long the environment's `reset_connection()` takes -/
+def simulateFull (interval timeout rt : Nat) (ins : List HIn) : HB :=
+  ins.foldl (feed rt) (init interval timeout)
+
+def simulate (interval timeout rt : Nat) (ins : List HIn) : List HEv :=
+  (simulateFull interval timeout rt ins).trace
 
 end PyAirtouch.Model.Heartbeat
